@@ -142,9 +142,27 @@ def make_region(rng):
     return 'sl', '--' + body + end, tt, lefts, rights
 
 
+# Text in front of the left context: openers of OTHER regions that are never
+# closed (they lex as operators / placeholders / errors on their own) and
+# closed regions of every kind. None contains a quote character, and each
+# is used only when the lexeme cannot close it.
+NOISE = [('$zz$ x ', '$zz$'), ('$_q$;', '$_q$'), ('/* x ', '*/'),
+         ('/*+ h ', '*/'), ('$$ ', '$$'), ('$Tag$ y $tag$ ', '$Tag$'),
+         ('a[1 ', ']'), ('f(( ', None), ('x ] ) ', None),
+         ('$a$ b $a$ ', None), ('/* c */ ', None), ('-- c\n', None),
+         ('`q` ', '`'), ('@v :p ?1 %s ', None), ('1e ', None), ('0x ', None),
+         ('E ', None), ('$1 $x ', None), ('/ * ', None), ('- - ', None)]
+
+
 def check_region(rec, rng):
     kind, lexeme, want_tt, lefts, rights = make_region(rng)
     L, R = rng.choice(lefts), rng.choice(rights)
+    if rng.random() < 0.2:
+        pre, closer = rng.choice(NOISE)
+        if (closer is None or closer.lower() not in lexeme.lower()) \
+                and not (L == '' or L[-1] in '$' or L.startswith('||')):
+            L = pre + L
+            rec.count('regions_behind_unclosed_or_closed_other_regions')
     if rng.random() < 0.004:
         # the region straddles a typical buffer size (block-wise readers)
         T_ = rng.choice([1024, 4096, 8192, 16384, 65536])
